@@ -11,6 +11,7 @@ import (
 )
 
 var monitors = map[string]func(*vk.Ctx){
+	"C04": runC04,
 	"C12": runC12,
 	"C13": runC13,
 	"C14": runC14,
